@@ -44,7 +44,9 @@ def stepCsign (ws : List String) : String × Verdict :=
   match r with
   | none => ("bad-op", .unknown)
   | some (nent, ux) =>
-    let entries : List Entry := (List.range nent).map fun i => ⟨i + 1, i + 1⟩
+    -- a watch-only (xpub) wallet holds addresses without secret keys
+    let watchOnly := ((field "wallet=" ws).splitOn ":").head? == some "xpub"
+    let entries : List Entry := (List.range nent).map fun i => ⟨i + 1, if watchOnly then 0 else i + 1⟩
     let ins := (List.zip (List.range ux.length) ux).map fun (i, a) => (i + 101, a)
     match signCreated entries 7 ins with
     | .ok sigs =>
